@@ -2016,6 +2016,13 @@ func (cs *State) addVote(vote *types.Vote, peerID p2p.ID) (added bool, err error
 			return
 		}
 
+		if cs.LastCommit == nil {
+			// At the initial height there is no previous height: LastCommit is a nil
+			// VoteSet (AddVote on it panics). Such a precommit can only be bogus.
+			cs.Logger.Debug("precommit vote for the height before the initial height has been ignored", "vote", vote)
+			return
+		}
+
 		added, err = cs.LastCommit.AddVote(vote)
 		if !added {
 			return
